@@ -10,6 +10,7 @@
                     binaries between double quotes; references as '#' + id
  R6 item match      enumeration item look-up compares whole tokens (string equality on both terminators)
 """
+import re
 from engines import known_facts, call_args, parse_format, peval
 from ir import walk, strip, expr_str, access_path, array_len
 
@@ -27,7 +28,8 @@ EXPLANATION = (
     "lowered only at reviewed sites or under a guard that the severity is exactly SEVERITY_INCOMPLETE (C03's relaxation rule and table). (R1, generalised) a reader that converts with a C library function (strtod, strtol, ...) tests both the end pointer and the range indication (errno / isinf / HUGE_VAL) before it accepts the value; a conversion that cannot report failure (atof, atoi) is a violation. (R7) a failed conversion of an optional attribute is not forgiven. Not decided: equality of the hand-written scanners' "
     "accepted language with the ISO grammar, exact values, string escapes."
     " (R8) a linear search whose loop condition is `i < B && <no match>` and the later not-found test on i use the same bound expression B (SDAI_Enum / SDAI_LOGICAL ReadEnum and set_value, STEPcomplex::Replicate): otherwise an unknown token is silently read as the entry at the last index."
-    " (R9) no branch is decided by a look-ahead variable (`c = in.peek()`) after something was consumed from the same stream and before the variable was assigned again (typestate over flag-consistent paths).")
+    " (R9) no branch is decided by a look-ahead variable (`c = in.peek()`) after something was consumed from the same stream and before the variable was assigned again (typestate over flag-consistent paths)."
+    " (R10) every sprintf/snprintf of integer conversions into a local scratch array has room for the longest rendering of the conversion's type plus the terminator (21 bytes for %ld): no integer is written cut to a shorter, well-formed one.")
 
 READERS = {"ReadInteger": "integer", "ReadReal": "real", "ReadNumber": "number"}
 
@@ -539,6 +541,53 @@ def r9_lookahead_not_stale(prog, res):
     res.floor("R9.lookahead_not_stale", "functions with a look-ahead variable", nf, 12)
 
 
+INT_DIGITS = {"": ("int", 11), "h": ("int", 6), "hh": ("int", 4), "l": ("long", 20), "ll": ("long long", 20), "z": ("size_t", 20), "j": ("intmax_t", 20), "t": ("ptrdiff_t", 20)}
+
+
+def r10_integer_buffer_fits(prog, res):
+    """An integer is written through a scratch buffer: `sprintf( tmp, "%ld", value )` then `s = tmp`.  The buffer must hold the longest
+    rendering of the conversion's type (20 characters for a 64-bit `%ld`, 11 for `%d`, plus the terminator).  With `snprintf` into a
+    smaller buffer nothing overflows, but the text is cut - `123456789012` written as `12345678901` - and the cut text is a well-formed
+    integer that reads back without complaint."""
+    n = 0
+    counters = {}
+    for f in prog.all_functions():
+        if f.component == "test" or f.component not in ("clstepcore", "cldai", "cleditor"):
+            continue
+        for c in f.calls():
+            fn = c.get("fn") or ""
+            if fn not in ("sprintf", "snprintf"):
+                continue
+            a = call_args(c)
+            fi = 1 if fn == "sprintf" else 2
+            if len(a) <= fi:
+                continue
+            dst, fmt = strip(a[0]), strip(a[fi])
+            while dst is not None and dst["k"] == "Cast" and dst.get("ch"):
+                dst = strip(dst["ch"][0])
+            if dst is None or dst["k"] != "Ref" or dst.get("dk") != "local" or fmt is None or fmt["k"] != "Str":
+                continue
+            size = array_len(f.ty(dst))
+            convs = parse_format(fmt.get("s") or "")
+            if not size or not convs or any(cv["conv"] not in "diuxXo" for cv in convs):
+                continue
+            if any(cv.get("width") or cv.get("prec") for cv in convs):
+                continue
+            lit = len(re.sub(r"%[-+ #0]*[hlzjt]*[diuxXo]", "", fmt["s"]))
+            need = lit + sum(INT_DIGITS.get(cv["len"], ("?", 20))[1] for cv in convs) + 1
+            n += 1
+            base = "R10|%s|%s|%s" % (f.relfile(), f.name, dst["n"])
+            c0 = counters.get(base, 0)
+            counters[base] = c0 + 1
+            ok = size >= need
+            res.add("R10.integer_buffer_fits", base if c0 == 0 else "%s#%d" % (base, c0), f.where(c), ok,
+                    "`%s[%d]` holds the longest rendering of \"%s\" (%d bytes)" % (dst["n"], size, fmt["s"], need) if ok else
+                    "`%s[%d]` is too small for the longest rendering of \"%s\" (%d bytes with the terminator): %s" %
+                    (dst["n"], size, fmt["s"], need, "the text is cut and the cut text is another, well-formed integer" if fn == "snprintf" else
+                     "the conversion writes past the buffer"))
+    res.floor("R10.integer_buffer_fits", "integer conversions into local scratch buffers", n, 5)
+
+
 def run(prog, res, tier):
     sev = sev_enum(prog)
     if sev is None:
@@ -552,3 +601,4 @@ def run(prog, res, tier):
     r7_failure_not_forgiven(prog, res, sev)
     r8_search_bound_agrees(prog, res)
     r9_lookahead_not_stale(prog, res)
+    r10_integer_buffer_fits(prog, res)
